@@ -357,6 +357,54 @@ def check(model, rep, tier):
             {'replacements': facts_t}, line=en_.node.lineno,
             witness='with cm() as obj.attr: ...   /   del (a[i()], b[j()])')
 
+  # a slice, and a tuple that holds one (the extended slice a[i:j, k]), can only
+  # stand inside the subscript: neither reaches the replacement step
+  oks = bool(repl)
+  facts_s = []
+  for c in repl:
+    arg = core.norm(c.args[0]) if c.args else None
+    slice_out = ext_out = False
+    for pol, tst in formula.path_condition(env_, c):
+      if pol != 'F':
+        continue
+      # (a false disjunction makes every disjunct false)
+      for t_ in (tst.values if isinstance(tst, ast.BoolOp) and isinstance(
+          tst.op, ast.Or) else [tst]):
+        if isinstance(t_, ast.Call) and core.dotted(t_.func) == 'isinstance' and \
+            len(t_.args) == 2 and core.norm(t_.args[0]) == arg:
+          ks = {core.dotted(k).split('.')[-1] for k in (
+              t_.args[1].elts if isinstance(t_.args[1], ast.Tuple) else [t_.args[1]])}
+          if 'Slice' in ks:
+            slice_out = True
+      # isinstance(arg, ast.Tuple) and any(isinstance(e, ast.Slice) for e in arg.elts)
+      conj = tst.values if isinstance(tst, ast.BoolOp) and isinstance(
+          tst.op, ast.And) else [tst]
+      is_tuple = any(core.norm(v_) in ('isinstance(%s, ast.Tuple)' % arg,
+                                       'isinstance(%s, (ast.Tuple,))' % arg) for v_ in conj)
+      holds = False
+      for v_ in conj:
+        if isinstance(v_, ast.Call) and core.dotted(v_.func) == 'any' and len(
+            v_.args) == 1 and isinstance(v_.args[0], (ast.GeneratorExp, ast.ListComp)):
+          ge = v_.args[0]
+          if len(ge.generators) == 1 and not ge.generators[0].ifs and core.norm(
+              ge.generators[0].iter) == arg + '.elts' and isinstance(
+                  ge.generators[0].target, ast.Name) and core.norm(ge.elt) == \
+              'isinstance(%s, ast.Slice)' % ge.generators[0].target.id:
+            holds = True
+      # without the tuple test the elts attribute would be read on every node:
+      # only the conjunction (tuple first) is a total test
+      if holds and is_tuple and len(conj) == 2 and core.norm(conj[0]).startswith(
+          'isinstance('):
+        ext_out = True
+    facts_s.append({'replaces': arg, 'slice_excluded': slice_out,
+                    'tuple_holding_slice_excluded': ext_out})
+    oks = oks and slice_out and ext_out
+  rep.check(oks, 'ANF-TARGET', '%s:slices-kept' % en_.site,
+            'a slice, or a tuple holding a slice (extended slice), can be replaced '
+            'by a temporary: `tmp = (i:j, k)` is not an expression -- the output '
+            'does not compile', {'replacements': facts_s}, line=en_.node.lineno,
+            witness='a[g(b):c, h(c)]')
+
   # each with-item is named from itself: the element handed to the naming step
   # is the variable of the loop / comprehension that runs over node.items
   vw = cls.methods.get('visit_With')
